@@ -107,6 +107,10 @@ namespace pika {
         {
             PIKA_ASSERT_OWNS_LOCK(lock);
 
+            // Do not let an error left in ec by an earlier call be mistaken for a failure of
+            // the wait below (which never sets ec).
+            if (&ec != &throws) ec = make_success_code();
+
             auto data = data_;    // keep data alive
 
             [[maybe_unused]] util::ignore_all_while_checking ignore_lock;
@@ -238,6 +242,10 @@ namespace pika {
         {
             PIKA_ASSERT_OWNS_LOCK(lock);
 
+            // Do not let an error left in ec by an earlier call be mistaken for a failure of
+            // the wait below (which never sets ec).
+            if (&ec != &throws) ec = make_success_code();
+
             auto data = data_;    // keep data alive
 
             [[maybe_unused]] util::ignore_all_while_checking ignore_lock;
@@ -330,6 +338,10 @@ namespace pika {
         wait_until(Lock& lock, stop_token stoken, pika::chrono::steady_time_point const& abs_time,
             Predicate pred, error_code& ec = throws)
         {
+            // Do not let an error left in ec by an earlier call be mistaken for a failure of
+            // the wait below (which never sets ec).
+            if (&ec != &throws) ec = make_success_code();
+
             if (stoken.stop_requested()) { return pred(); }
 
             auto data = data_;    // keep data alive
